@@ -492,7 +492,11 @@ ASMJIT_FAVOR_SIZE Error init_func_detail(FuncDetail& func, const FuncSignature& 
               arg.assign_stack_offset(int32_t(stack_offset));
             }
             else {
-              uint32_t gp_reg_id = cc._passed_order[RegGroup::kGp].id[arg_index];
+              uint32_t gp_reg_id = Reg::kIdBad;
+              if (arg_index < CallConv::kMaxRegArgsPerGroup) {
+                gp_reg_id = cc._passed_order[RegGroup::kGp].id[arg_index];
+              }
+
               if (gp_reg_id != Reg::kIdBad) {
                 arg.assign_reg_data(RegType::kGp64, gp_reg_id);
               }
